@@ -47,7 +47,7 @@ AllOnes(s) == \A i \in 1..Len(s) : s[i] = 1
 StorageOf(q) == IF q \in {"qint8", "qint4", "qint2"} THEN "int8" ELSE IF q = "qfloat8_e5m2" THEN "float8_e5m2" ELSE "float8_e4m3fn"
 ScaleLayoutOK(a) ==
   IF a.axis = "none" THEN ProdS(a.sshape) = 1
-  ELSE IF a.kind = "QBits" THEN TRUE            \* grouped layouts are judged by C02/C03
+  ELSE IF a.kind = "QBits" THEN a.zshape = a.sshape   \* one zero-point per scale (the grouped layout itself is judged by C02/C03)
   ELSE /\ Len(a.sshape) = Len(a.shape) /\ Len(a.shape) >= 2
        /\ LET d == IF a.axis = "first" THEN 1 ELSE Len(a.shape) IN
             a.sshape[d] = a.shape[d] /\ ProdS(a.sshape) = a.shape[d]
@@ -113,7 +113,7 @@ MoveOK(e) ==
      /\ e.after.codes = e.before.codes /\ e.after.qt = e.before.qt /\ e.after.axis = e.before.axis
      /\ e.after.pdtype = e.before.pdtype
      /\ (e.before.kind = "QBits") => (e.after.kind = "QBits" /\ e.after.gs = e.before.gs /\ e.after.packed_rows = e.before.packed_rows
-                                      /\ e.after.sshape = e.before.sshape)
+                                      /\ e.after.sshape = e.before.sshape /\ e.after.zshape = e.before.zshape /\ e.after.zdtype = e.before.zdtype)
      /\ e.op = "to" => (e.after.dtype = e.o.dtype /\ e.after.sdtype = e.o.dtype)
      /\ e.op # "to" => e.scale = e.scale_before
 
